@@ -62,6 +62,13 @@ VERIF_TRX = [
         {'format': 'e1', 'baud_rate': 32e9, 'OSNR': 11, 'bit_rate': 100e9, 'roll_off': 0.15, 'tx_osnr': 40,
          'min_spacing': 37.5e9, 'cost': 1,
          'penalties': [{'chromatic_dispersion': -1e3, 'penalty_value': 0}, {'chromatic_dispersion': 2100, 'penalty_value': 0.5}]}]},
+    # a fine ladder of modes at one baud rate (thresholds every 0.1 dB over the whole GSNR range of the benches, bit rate
+    # growing with the threshold): the automatically selected mode is then a fine-grained function of the request's OWN
+    # worst-channel GSNR - two requests that differ in anything the GSNR depends on (the size of the comb: 0.1 .. 0.4 dB
+    # measured on the benches) select different modes when each is computed alone
+    {'type_variety': 'VerifLadder', 'frequency': {'min': 191.35e12, 'max': 196.1e12}, 'mode': [
+        {'format': f'L{k:03d}', 'baud_rate': 32e9, 'OSNR': round(8 + 0.1 * k, 1), 'bit_rate': 50e9 + 1e9 * k,
+         'roll_off': 0.15, 'tx_osnr': 40, 'min_spacing': 37.5e9, 'cost': 1} for k in range(201)]},
     # thresholds no path of the benches reaches: NO_FEASIBLE_MODE (automatic) and MODE_NOT_FEASIBLE (forced)
     {'type_variety': 'VerifHard', 'frequency': {'min': 191.35e12, 'max': 196.1e12}, 'mode': [
         {'format': 'h1', 'baud_rate': 32e9, 'OSNR': 30, 'bit_rate': 100e9, 'roll_off': 0.15, 'tx_osnr': 40,
@@ -101,9 +108,39 @@ def bench_equipment(name):
     return jio._equipment_from_json(ej, extra)
 
 
+# Raman-pumped spans ('<bench>+raman'): counter-propagating pumps sit at one site and feed the long spans that END there.
+# The benches run such a network under the DEFAULT process-wide simulation parameters (Raman solver off: what an API
+# user gets without a sim-params file, or with one that leaves the flag off)
+RAMAN_SITE = {'meshV2': 'Lorient_KMA'}
+RAMAN_MIN_KM = 60
+RAMAN_OPERATIONAL = {'temperature': 283,
+                     'raman_pumps': [{'power': 0.2, 'frequency': 205e12, 'propagation_direction': 'counterprop'},
+                                     {'power': 0.2, 'frequency': 201e12, 'propagation_direction': 'counterprop'}]}
+
+
+def with_raman_spans(t, site):
+    """a copy of topology `t` in which every fibre span of RAMAN_MIN_KM or more whose next element sits at `site` is a
+    RamanFiber"""
+    t = copy.deepcopy(t)
+    city = {e['uid']: e.get('metadata', {}).get('location', {}).get('city') for e in t['elements']}
+    ends_at = {c['from_node'] for c in t['connections'] if city.get(c['to_node']) == site}
+    n = 0
+    for e in t['elements']:
+        if e['type'] == 'Fiber' and e['uid'] in ends_at and e['params']['length'] >= RAMAN_MIN_KM:
+            e['type'] = 'RamanFiber'
+            e['params'].update(con_in=0.5, con_out=0.5)
+            e['operational'] = copy.deepcopy(RAMAN_OPERATIONAL)
+            n += 1
+    if not n:
+        raise KeyError(f'no span of {RAMAN_MIN_KM} km or more ends at {site}')
+    return t
+
+
 @lru_cache(maxsize=None)
 def _topo(name):
     from gnpy.tools.json_io import load_gnpy_json
+    if name.endswith('+raman'):
+        return with_raman_spans(_topo(name[:-len('+raman')]), RAMAN_SITE[name.split('+')[0]])
     if name in ('meshV2', 'meshV2+island'):
         t = load_gnpy_json(EX / 'meshTopologyExampleV2.json')
         if name.endswith('island'):          # an unreachable site, so that NO_PATH can be realised; fibres with a
@@ -134,7 +171,8 @@ class _BenchEqpt(dict):
         return dict.__getitem__(self, base)
 
 
-BENCH_EQPT = _BenchEqpt({'meshV2': 'ex', 'meshV2+island': 'ex', 'testTopology': 'td', 'CORONET': 'ex', 'ila': 'ex'})
+BENCH_EQPT = _BenchEqpt({'meshV2': 'ex', 'meshV2+island': 'ex', 'testTopology': 'td', 'CORONET': 'ex', 'ila': 'ex',
+                         'meshV2+raman': 'ex', 'meshV2+island+raman': 'ex'})
 
 # process-wide simulation parameters a bench runs under: 'bench@sim'.  '' = the defaults (analytic GN model);
 # the GGN variants evaluate the NLI on a few channels spread over the propagated comb and interpolate
@@ -175,9 +213,24 @@ def fresh_network(bench):
     base, sim = split_bench(bench)
     set_sim(sim)
     eq = bench_equipment(BENCH_EQPT[bench])
+    if base.endswith('+raman'):
+        # the design estimates the gain of every Raman-pumped span with the numerical solver (0.4 s per span): such a
+        # bench is loaded and designed ONCE per process and library; every run gets its own deep copy of that network
+        return copy.deepcopy(_designed_once(base, BENCH_EQPT[bench], sim)), eq
     net = network_from_json(copy.deepcopy(_topo(base)), eq)
     net, _, _ = designed_network(eq, net)
     return net, eq
+
+
+@lru_cache(maxsize=None)
+def _designed_once(base, eqname, sim):
+    from gnpy.tools.json_io import network_from_json
+    from gnpy.tools.worker_utils import designed_network
+    set_sim(sim)
+    eq = bench_equipment(eqname)
+    net = network_from_json(copy.deepcopy(_topo(base)), eq)
+    net, _, _ = designed_network(eq, net)
+    return net
 
 
 def crc(obj):
@@ -237,6 +290,9 @@ TRX = {'meshV2+island': [('Voyager', 'mode 1', 50e9), ('Voyager', None, 75e9), (
                         ('VerifMixed', None, 50e9)]}
 
 
+SITES['meshV2+island+raman'], TRX['meshV2+island+raman'] = SITES['meshV2+island'], TRX['meshV2+island']
+
+
 def include_candidates(bench):
     """every ROADM / amplifier / fused node the topology file names (both directions of every link): an include list
     drawn from them is satisfiable, unsatisfiable (wrong direction, impossible order) or explicit, as it comes"""
@@ -277,6 +333,9 @@ def variants(base, rng=None, eq=None):
         v('noinc', lambda r, tb: r.pop('explicit-route-objects'))
     if rng is not None:
         return [rng.choice(out)]
+    # by a LARGE amount (listed last and only in the deterministic batches, so that the seeded batches stay what they were):
+    # a comb a third as wide - a lighter load, so other figures and, with a fine mode ladder, another selected mode
+    v('comb', lambda r, tb: tb.update({'max-nb-of-channel': max(1, (tb.get('max-nb-of-channel') or 60) // 3)}))
     return out
 
 
@@ -299,12 +358,16 @@ def near_identical(bench, light=False):
                  rq('D', 'Brest_KLA', 'Lorient_KMA', typ='VerifMixed', mode='p1', bw=200e9),    # mode WITH penalties
                  rq('B', 'Lorient_KMA', 'Lannion_CAS', route=['west edfa in Lorient_KMA to Loudeac'], bw=100e9),
                  rq('C', 'Brest_KLA', 'Rennes_STA', route=['roadm Vannes_KBE'], mode=None, spacing=75e9, bidir=True,
-                    bw=300e9)]
+                    bw=300e9),
+                 # automatic mode over a fine ladder of thresholds: base and variants share transponder type, spacing and
+                 # route, and each selects the mode its OWN comb and transceiver power allow
+                 rq('E', 'Vannes_KBE', 'Lannion_CAS', typ='VerifLadder', mode=None, tx_power=1e-3, bw=200e9)]
     else:
         bases = [rq('A', 'a', 'g', typ='Voyager', mode='mode 1', tx_power=1e-4, power=1e-3, bw=200e9),
                  rq('D', 'c', 'g', typ='VerifMixed', mode='p1', bw=200e9),
                  rq('B', 'a', 'h', route=['roadm g', 'roadm a', 'roadm g'], bw=100e9),
-                 rq('C', 'f', 'b', route=['roadm c'], mode=None, spacing=75e9, bidir=True, bw=300e9)]
+                 rq('C', 'f', 'b', route=['roadm c'], mode=None, spacing=75e9, bidir=True, bw=300e9),
+                 rq('E', 'a', 'h', typ='VerifLadder', mode=None, tx_power=1e-3, bw=200e9)]
     eq = bench_equipment(BENCH_EQPT[bench])
     return [(f'near-identical-{b["request-id"]}', loadable(bench, [b] + variants(b, eq=eq))) for b in bases]
 
@@ -483,7 +546,7 @@ def random_batch(rng, bench, tag, n):
             r['path-constraints']['te-bandwidth']['path_bandwidth'] = rng.choice([100e9, 200e9, 400e9])
             out.append(r)
             continue
-        s, d = rng.sample(sites + (['Island'] if base_bench.endswith('island') and rng.random() < 0.1 else []), 2)
+        s, d = rng.sample(sites + (['Island'] if '+island' in base_bench and rng.random() < 0.1 else []), 2)
         typ, mode, spacing = rng.choice(trx)
         pcm = int(-(-spacing // 12.5e9))
         n0 = rng.randrange(-200, 300, 4)
